@@ -1977,11 +1977,10 @@ class StridedInterval:
 
         if shift_amount.is_integer:
             return (round(self.bits, shift_amount.lower_bound), round(self.bits, shift_amount.lower_bound))
-        if shift_amount.lower_bound < 0:
-            if shift_amount.upper_bound >= 0:
-                return (0, self.bits)
-            return (self.bits, self.bits)
-        return (round(self.bits, self.lower_bound), round(self.bits, self.upper_bound))
+        if shift_amount.lower_bound > shift_amount.upper_bound:
+            # The shift amount wraps around zero: both 0 and amounts of at least `bits` are possible
+            return (0, self.bits)
+        return (round(self.bits, shift_amount.lower_bound), round(self.bits, shift_amount.upper_bound))
 
     @reversed_processor
     def rshift_logical(self, shift_amount: StridedInterval) -> StridedInterval:
